@@ -100,7 +100,73 @@ theorem span_inside_file (code : List Nat) (pos : Nat) :
     exact ((List.take_sublist pos code).filter _).length_le
   omega
 
+/-! ### distinct positions print differently -/
+
+/-- strict lexicographic order on (line, column) -/
+def lt (a b : Nat × Nat) : Prop := a.1 < b.1 ∨ (a.1 = b.1 ∧ a.2 < b.2)
+
+theorem step_strict (st : Nat × Nat) (c : Nat) : lt st (step st c) := by
+  unfold step lt
+  split
+  · left; simp
+  · split <;> (right; simp)
+
+theorem lt_of_lt_of_le {a b c : Nat × Nat} (h1 : lt a b) (h2 : le b c) : lt a c := by
+  unfold lt le at *
+  rcases h1 with h1 | ⟨h1, h1'⟩ <;> rcases h2 with h2 | ⟨h2, h2'⟩
+  · left; omega
+  · left; omega
+  · left; omega
+  · right; exact ⟨by omega, by omega⟩
+
+theorem lt_irrefl (a : Nat × Nat) : ¬ lt a a := by
+  unfold lt; omega
+
+/-- two different positions inside the text never print as the same line:column: a later
+    position prints strictly later (so the reported line:column determines the token) -/
+theorem lineCol_strict_mono (code : List Nat) (p1 p2 : Nat) (h : p1 < p2) (h2 : p2 ≤ code.length) :
+    lt (lineCol code p1) (lineCol code p2) := by
+  rw [lineCol_eq_scan, lineCol_eq_scan]
+  unfold scan
+  have e : (code.take p2).take p1 = code.take p1 := by rw [List.take_take, Nat.min_eq_left (Nat.le_of_lt h)]
+  have hs : code.take p2 = code.take p1 ++ (code.take p2).drop p1 := by
+    calc code.take p2 = (code.take p2).take p1 ++ (code.take p2).drop p1 := (List.take_append_drop _ _).symm
+      _ = code.take p1 ++ (code.take p2).drop p1 := by rw [e]
+  rw [hs, List.foldl_append]
+  have hl : ((code.take p2).drop p1).length = p2 - p1 := by simp [Nat.min_eq_left h2]
+  match hd : (code.take p2).drop p1 with
+  | [] => rw [hd] at hl; simp at hl; omega
+  | c :: r =>
+    simp only [List.foldl_cons]
+    exact lt_of_lt_of_le (step_strict _ c) (foldl_mono r _)
+
+theorem lineCol_injective (code : List Nat) (p1 p2 : Nat) (h1 : p1 ≤ code.length) (h2 : p2 ≤ code.length)
+    (e : lineCol code p1 = lineCol code p2) : p1 = p2 := by
+  rcases Nat.lt_trichotomy p1 p2 with h | h | h
+  · exact absurd (e ▸ lineCol_strict_mono code p1 p2 h h2) (lt_irrefl _)
+  · exact h
+  · exact absurd (e ▸ lineCol_strict_mono code p2 p1 h h1) (lt_irrefl _)
+
+/-- the column lies inside the line it is reported on: at most four columns per character
+    of that line before the position -/
+theorem col_inside_line (code : List Nat) (pos : Nat) :
+    (lineCol code pos).2 ≤ 4 * (lastLine (code.take pos)).length + 1 := by
+  simp only [lineCol]
+  have : countC 9 (lastLine (code.take pos)) ≤ (lastLine (code.take pos)).length := by
+    unfold countC; exact List.length_filter_le _ _
+  omega
+
+/-- positions beyond the end of the text all print as the end of the text (why the
+    hypothesis `p2 ≤ code.length` of `lineCol_strict_mono` is needed, and what the code
+    does there) -/
+theorem lineCol_past_end (code : List Nat) (pos : Nat) (h : code.length ≤ pos) :
+    lineCol code pos = lineCol code code.length := by
+  simp [lineCol, List.take_of_length_le h]
+
+example : lt (lineCol [97, 9, 98, 10, 9, 99, 100] 1) (lineCol [97, 9, 98, 10, 9, 99, 100] 2) := by unfold lt; decide
+
 /-! ### non-vacuity -/
+-- (the strict-order example is stated above, next to its theorem)
 -- "a\tb\n\tcd": position 7 (the `d`) is line 2, column 6
 example : lineCol [97, 9, 98, 10, 9, 99, 100] 6 = (2, 6) ∧ scan [97, 9, 98, 10, 9, 99, 100] 6 = (2, 6) := by decide
 
